@@ -384,6 +384,20 @@ def check_knot(case):
         rv, goodv = repr(e), False
     if not goodv and nbad == 0:
         fails.append({"site": site_en, "msg": "vector call differs from scalar calls / not containing", "data": dict(tagb, got=rv, xis=xs, call="vector")})
+    # the same letters in other orders (descending, interleaved, right end repeated): the lookup must not depend on the order
+    if nbad == 0:
+        orders = {"descending": xs[::-1], "interleaved": xs[1::2] + xs[0::2], "right end repeated": [1.0, xs[len(xs) // 2], 1.0, 0.0, 1.0]}
+        for oname, xo in orders.items():
+            evals += 1
+            try:
+                ro = np.asarray(kv.element_number(np.array(xo)))
+                goodo = ro.shape == (len(xo),) and all(int(ro[i]) in containing(x) for i, x in enumerate(xo))
+            except Exception as e:  # noqa
+                ro, goodo = repr(e), False
+            if not goodo:
+                fails.append({"site": site_en, "msg": f"vector call in {oname} order returns an element that does not contain its xi",
+                              "data": dict(tagb, got=ro, xis=xo, call="vector:" + oname)})
+                break
     for x0, nm in ((0, "int 0"), (1, "int 1")):
         evals += 1
         try:
